@@ -43,6 +43,10 @@ pub fn parse(raw: &[u8]) -> Result<IndexMap<String, Vec<u8>>> {
         cursor.set_position(entry.name_address as u64);
         let name = cursor.read_shift_jis_string()?;
         cursor.set_position(entry.file_address as u64);
+        let file_end = entry.file_address as u64 + entry.file_size_unpadded as u64;
+        if file_end > raw.len() as u64 {
+            return Err(crate::ArchiveError::ArchiveTooSmall);
+        }
         let mut contents = vec![0; entry.file_size_unpadded as usize];
         cursor.read_exact(&mut contents)?;
         entries.insert(name, contents);
